@@ -44,6 +44,9 @@ class Obl(dict):
         self.update(kw)
 
 
+concretize = alg.concretize
+
+
 def short(e, n=300):
     s = str(e)
     return s if len(s) <= n else s[:n] + '...[%d chars]' % len(s)
@@ -69,15 +72,16 @@ def prove_zero(name, expr, hyps=(), witness=None, nsamples=None, replay=None, go
         syms = set(expr.free_symbols) | set(extra_syms)
         for h in hyps:
             if isinstance(h, sp.Basic): syms |= h.free_symbols
+        cexpr = concretize(expr)
         if z:
             pts = alg.sample_points(syms, hyps, 3, seed=SEED + 17, witness=witness, ranges=ranges)
-            bad, val = alg.refute(expr, pts, tol=1e-12)
+            bad, val = alg.refute(cexpr, pts, tol=1e-12)
             if bad is not None:
                 return Obl(name, 'error', 'ring', time.time() - t0, detail='normaliser proved 0 but value %s at %s' % (val, jval(bad)))
             return Obl(name, 'discharged', 'ring-mod-laws(sympy)', time.time() - t0, goal=goal_text or (short(expr, 160) + ' == 0'),
                        laws=info.get('laws', []), guard_points=len(pts))
         pts = alg.sample_points(syms, hyps, nsamples, seed=SEED, witness=witness, ranges=ranges)
-        bad, val = alg.refute(expr, pts, tol=tol)
+        bad, val = alg.refute(cexpr, pts, tol=tol)
         if bad is not None:
             return Obl(name, 'refuted', 'exact-evaluation', time.time() - t0, goal=goal_text or (short(expr, 160) + ' == 0'),
                        cex=jval(bad), value=str(sp.N(val, 8)), replay=replay, cex_raw={str(k): str(v) for k, v in bad.items()})
